@@ -504,6 +504,19 @@ func init() {
 		}
 		return &Slice{Arr: in.alloc(s, arr), Len: int(n.Val), Cap: int(n.Val)}, nil, true
 	})
+	// repo helpers that reinterpret slice/string headers through unsafe.Pointer (value copies here:
+	// later writes through the slice are not seen through the string)
+	reg("github.com/ozontech/seq-db/util.ByteToStringUnsafe", func(in *Interp, s *State, c *callCtx) (Value, []*State, bool) {
+		return in.sliceToStr(s, c.args[0].(*Slice)), nil, true
+	})
+	reg("github.com/ozontech/seq-db/util.StringToByteUnsafe", func(in *Interp, s *State, c *callCtx) (Value, []*State, bool) {
+		bs := in.strBytes(c.args[0].(*Str))
+		arr := &Agg{Elems: make([]Value, len(bs))}
+		for i, b := range bs {
+			arr.Elems[i] = b
+		}
+		return &Slice{Arr: in.alloc(s, arr), Len: len(bs), Cap: len(bs)}, nil, true
+	})
 	reg("internal/abi.NoEscape", func(in *Interp, s *State, c *callCtx) (Value, []*State, bool) { return c.args[0], nil, true })
 	reg("internal/abi.Escape", func(in *Interp, s *State, c *callCtx) (Value, []*State, bool) { return c.args[0], nil, true })
 	reg("runtime.KeepAlive", nop)
